@@ -242,6 +242,15 @@ func getKeyValueOf(v ssa.Value) (recv, key ssa.Value, ok bool) {
 			return nil, nil, false
 		case *ssa.TypeAssert:
 			v = x.X
+		case *ssa.Phi:
+			a := phiAlias[x]
+			if a == nil {
+				a = phiModuloZero(x)
+			}
+			if a == nil {
+				return nil, nil, false
+			}
+			v = a
 		case *ssa.MakeInterface:
 			v = x.X
 		case *ssa.ChangeInterface:
